@@ -18,7 +18,23 @@ CLAIMS = {
          "Constructor order (memory/registers from the configured filler, I/O page zero-filled, then load_os, no branch in between); frame rule of load_obj_file (stores only `alloca`, lends only `mem`, to copy_obj_block only); the external guard precedes every copy and the copy is conditional only on the block loop; copy_obj_block accesses memory only through the six range slices si..ei/si../..ei with end = start +w chunk.len() and start = end afterwards, writes Word::new_init(v) for Some-chunks and only clear_init() for None-chunks.",
          "'No other word changes' is decided only as the exact set of memory index operations; values of the index arithmetic are not computed. Trusted: rustc MIR, mirfacts, rules/lib.",
          "dominance, field write/borrow sets (frame rule), exact enumeration of index operations", "5 C29"),
- "C09": ("other",
+ "C30": ("other",
+         "Field coverage of Simulator::reset on MIR: every field of Simulator is classified configuration/state (fails closed on a new field); reset overwrites *self with new_with_mcr(self.flags, Arc::clone(&self.mcr)) (same MCR allocation), moves every other configuration field (breakpoints, ireg_mmap, device_handler) out before and back after the overwrite from the same value, assigns no state field afterwards; the only device call is io_reset; the mcr field is private.",
+         "Equality of the fresh machine's contents with a new simulator's is C29.1 (constructor order) plus C31 (deterministic fill); values are not compared. Trusted: rustc MIR, mirfacts, rules/lib.",
+         "struct-field coverage and store ordering (dominance) on MIR", "5 C30"),
+"C31": ("other",
+         "Nondeterminism reachability: over the call graph from Simulator::new/reset/step_in/run*/step_over/step_out, the standard devices and TimerDevice::new/poll_interrupt/io_reset, the only reachable nondeterministic std/rand entry points (OS entropy, thread RNG, clocks, thread ids, RandomState) are rand::random in `WordFiller for ()` (dominated by the Unseeded arm) and StdRng::from_os_rng on the None arm of the timer's seed Option. Seed provenance: Seeded{seed} feeds seed_from_u64(seed), Known{value} yields value, memory and registers draw each word from the filler, the timer samples only from its own generator.",
+         "Statistical quality and equality of two runs are not computed; the claim is that no entropy besides the seed is reachable on the Seeded/Known configurations. Host callbacks (custom devices, observers) are outside the claim. Trusted: rustc MIR, mirfacts, rules/lib.",
+         "call-graph reachability to an enumerated source set + dominating-condition provenance on MIR", "5 C31"),
+"C32": ("other",
+         "MMIO table shape: port constants agree with the ISA oracle and DEVICE_SLOTS == 512 == xFFFF-xFE00+1; io_ports index is bounded by addr - IO_START on every indexing site; the devices vector never shrinks; set_port stores only into a free slot and rejects reserved (fixed-device/ireg) ports; remove_device refuses the fixed device ids before any mutation; add_device checks ports before pushing, returns Err without mutation, ids are the push index; in read_mem/write_mem the internal-register lookup (ireg_mmap) precedes device dispatch; device results are mirrored to memory only for data reads; mmap_internal guards the address range.",
+         "Behaviour of the devices themselves is not decided. Trusted: rustc MIR, mirfacts, rules/lib.",
+         "constant/table agreement, interval analysis of indices, dominance (guard-first) on MIR", "5 C32"),
+"C34": ("other",
+         "TimerDevice::poll_interrupt is the countdown automaton: first test is self.enabled and its disabled edge returns None with no store/call; match on time has exactly arms {0}: reset_remaining + None, {1}: time := 0 + Some(Interrupt::vectored(self.vect, self.priority)), rest: time -= 1 + None; try_generate_time samples random_range over exactly (start, end) with inclusive/exclusive chosen by end_incl; SampleRange::new maps Included/Excluded/Unbounded start to s / checked s+1 / 0 and end to (s,true)/(s,false)/(u32::MAX,true); io_reset and reset_remaining resample; writers of `time` are exactly those three.",
+         "The arithmetic consequence (t polls between interrupts) is argued from the arms in DESIGN.md, not computed. Trusted: rustc MIR, mirfacts, rules/lib.",
+         "automaton extraction from the SwitchInt on MIR, per-arm effect sets, field-writer ownership", "5 C34"),
+"C09": ("other",
          "In read_mem and write_mem the AccessViolation return (condition normalised to !ctx.privileged && addr outside [x3000,xFE00), range read from the promoted constant) precedes every call and every store of the function (CFG reachability: nothing effectful can reach the error return); only an enumerated owner set indexes the memory array or calls device io_read/io_write/InternalRegister; every read_mem/write_mem call reachable from step passes default_mem_ctx() or a struct update of it changing only `strict`; default_mem_ctx().privileged is psr.privileged() || ignore_privilege; handle_interrupt takes its context after set_privileged(true); every RTI effect is guarded by exactly the two-way privilege test; writers of Simulator.psr are enumerated and the field is private.",
          "Host code with &mut Simulator can use public fields; the claim is about simulated user-mode code. 'Leaves state unchanged' is claimed as guard-first. Trusted: rustc MIR, mirfacts, rules/lib.",
          "CFG reachability (guard-first), who-may-call ownership, def-use provenance of access contexts", "5 C09"),
